@@ -177,6 +177,8 @@ def _run(prop, reg, tier, seed, work, known, t0, replay):
         gen_scen += getattr(leg, "n_scen", 0)
         binary = core.go_build(lspec["driver"], race=lspec.get("race", False))
         only = [replay["scenario_index"]] if replay else None
+        if replay and (lspec.get("repro_full") or replay["scenario_index"] is None or replay["scenario_index"] < 0):
+            only = None  # the rejected trace aggregates over the leg (or needs its whole workload): replay all of it
         tf = leg.drive(binary, only=only)
         tv, rej, invf = leg.validate(tf)
         traces = core.load_traces(tf)
